@@ -7,8 +7,11 @@ claimed = {
  "C03": ("row plumbing of SELECT proved for all inputs: WHERE/HAVING compaction keeps exactly the rows whose slot is set, in order (and the slot is set iff the condition is TRUE), select-list projection (Fix) and its per-row worker, USING/NATURAL column merge worker, concatenation helpers, worker partition (RecordRange) and merge order (MergeRecordSetList), OFFSET; expression evaluation, header resolution and the goroutine runner are assumed contracts", "4 C03"),
  "C05": ("INSERT path proved end to end below field resolution (rows appended in the given order, each given column filled from its value, other columns NULL, count = rows given); REPLACE: columns rewritten are non-key given columns, unmatched rows appended in the given order; helpers RecordSet.Merge / Copy; UPDATE/DELETE/ALTER front halves are outside", "4 C05"),
  "C06": ("the coercion ladder (CompareCombinedly) and the six operators, Identical, Compare, Equivalent, the value readings (To*), Kleene connectives of the ternary dependency, BETWEEN / AND / OR / NOT / IS expansions and integer/float arithmetic are proved against the documented rules; the consistency laws of the statement are lemmas over those contracts", "4 C06"),
+ "C08": ("data-changing statements (Insert, Update, Replace, Delete, AddColumns, DropColumns, RenameColumn) never store into cell storage that existed before the statement (the cells shared with the cached table, cursors and restore points): every such store is proved to hit an object the statement allocated; Record.Copy / RecordSet.Copy give fresh spines over shared cells; a failed CREATE (NewHandlerForCreate) leaves no file; the publication-implies-success protocol is not yet under contract", "4 C08"),
  "C10": ("crash-point invariant of Handler.commit on a ghost file system: after every file-system call the table path holds the complete old or the complete new contents, on success the new ones; FileForUpdate routes writes to the temp file; Container.Commit delegates to commit for the registered handler; POSIX semantics of rename/remove/create are assumed contracts", "4 C10"),
  "C11": ("on a ghost file system: Handler.close / closeWithErrors / commit and ControlFile.Close leave none of the handler's control files and never touch the table of a read or update handler; every failed acquisition (NewHandlerFor*, TryCreate*) leaves no control file of its own; the transient lock of TryCreateRLockFile is removed on every path; signals and the retry loop (select) are outside", "4 C11"),
+ "C12": ("determinism as functionality of proved postconditions that mention neither the worker count nor a map order: RecordRange tiles [0,n) for every worker count (cover, disjoint, ordered lemmas), MergeRecordSetList concatenates in list order, GROUP BY assembles buckets in worker order, REPLACE appends unmatched rows in the given order, each Run worker (Fix, joinViews, filter, group, LTSV padding) writes only its own row; the goroutine runner and the four hand-rolled worker loops are assumed", "4 C12"),
+ "C13": ("thin: write frames of the closures run by GoroutineTaskManager.Run (Fix, joinViews merge, filter slots, GROUP BY bucket, LTSV padding): each is proved to write only the slot / row of its own index, and RecordRange gives the workers pairwise disjoint index ranges; loader goroutines, channels, sync.Pool and the Go memory model are outside", "4 C13"),
  "C14": ("pool ownership: every conversion (To*) returns a fresh object or a singleton, and at every value.Discard call site of lib/query and lib/value (62 functions, zero-annotation sweep) the discarded value is proved to be a temporary allocated by the current activation (never a literal of the syntax tree, a table cell or a variable); the no-store-through-syntax-tree-slices frame is not yet under contract", "4 C14"),
  "C15": ("block stack and lookups: CreateChild puts one new block in front of the parent's (shared, unchanged) blocks; GetVariable / SubstituteVariableDirectly / FetchCursor act on the innermost block that declares the name and touch no other block (ghost model of the sync.Map-backed block maps); control-flow mapping of WHILE / function calls is not yet under contract", "4 C15"),
  "C19": ("no-panic sweep: index/slice bounds, nil dereference, integer division, type assertion and make() obligations generated without annotations for ~210 functions (all built-in functions of function.go, the FORMAT interpreter, OFFSET/LIMIT, cursors, analytic helpers, lib/file handlers); those that discharge (about 900) are claimed, the others are listed as unclaimed; loaders' rectangularity and hangs are outside", "4 C19"),
